@@ -277,6 +277,30 @@ def replay_data(chk, cases):
                 exp = int(np.searchsorted(cum, u, side="right"))
                 if not (0 <= r < len(p)) or p[r] == 0 or r != exp:
                     chk.violation("data:adversarial_dyadic:" + tag, "p=%s u=%r -> %s (expected %s)" % (p, u, r, exp), dict(p=list(p), u=u))
+            # probability vectors whose floating-point sum stays BELOW the random number (rounding deficit, or a deficit the
+            # caller's atol admits): whatever is returned must be an outcome of non-zero probability - for every position of the
+            # support, the first one included
+            n = len(k)
+            eps = 2.0 ** -53
+            deficits = [np.array([1.0 - eps if j == pos else 0.0 for j in range(n)]) for pos in range(n)]
+            deficits += [np.array([0.995 if j == pos else 0.0 for j in range(n)]) for pos in (0, n - 1)]
+            if n >= 3:
+                deficits.append(np.array([0.5 - eps, 0.0] + [0.5 - eps] + [0.0] * (n - 3)))
+            for q in deficits:
+                for u in (np.nextafter(1.0, 0.0), float(q.sum()), (float(q.sum()) + 1.0) / 2):
+                    if u >= 1.0:
+                        continue
+                    try:
+                        r1 = dg._random_number_to_data(q, np.float64(u))
+                        r2 = dg.generate_data_from_prob_dist(q, 1, FakeGen(np.array([u])), atol=1e-2)[0]
+                    except Exception as e:
+                        chk.violation("data:deficit:exception:" + tag, "p=%s u=%r raised %r" % (q, u, e), dict(p=list(q), u=u))
+                        continue
+                    for r in (r1, r2):
+                        if not (0 <= r < n) or q[r] == 0:
+                            chk.violation("data:deficit:zero:" + tag, "p=%s (sum %r) u=%r -> outcome %s of probability zero" % (q, float(q.sum()), u, r), dict(p=list(q), u=u))
+                            break
+            chk.count(len(deficits))
         else:
             m, data = case["m"], case["data"]
             for g in case["good"]:
